@@ -38,7 +38,13 @@ pub fn bpm(last_hit_object: Option<&HitObject>, timing_points: &[TimingPoint]) -
         .map
         .into_iter()
         // * Get the most common one, or 0 as a suitable default
-        .max_by(|(_, a), (_, b)| a.total_cmp(b))
+        // On equal durations the beat length that appeared first wins so that
+        // the result does not depend on the map's iteration order.
+        .max_by(|(_, a), (_, b)| {
+            a.duration
+                .total_cmp(&b.duration)
+                .then_with(|| b.first_seen.cmp(&a.first_seen))
+        })
         .map_or(0.0, |(beat_len, _)| f64::from_bits(beat_len));
 
     60_000.0 / most_common_beat_len
@@ -47,7 +53,13 @@ pub fn bpm(last_hit_object: Option<&HitObject>, timing_points: &[TimingPoint]) -
 /// Maps `beat_len` to a cumulative duration
 struct BeatLenDuration {
     last_time: f64,
-    map: HashMap<u64, f64>,
+    map: HashMap<u64, Entry>,
+}
+
+struct Entry {
+    duration: f64,
+    /// Position among the distinct beat lengths in order of appearance.
+    first_seen: usize,
 }
 
 impl BeatLenDuration {
@@ -60,10 +72,15 @@ impl BeatLenDuration {
 
     fn add(&mut self, beat_len: f64, curr_time: f64, next_time: f64) {
         let beat_len = (1000.0 * beat_len).round() / 1000.0;
-        let entry = self.map.entry(beat_len.to_bits()).or_default();
+        let first_seen = self.map.len();
+
+        let entry = self.map.entry(beat_len.to_bits()).or_insert(Entry {
+            duration: 0.0,
+            first_seen,
+        });
 
         if curr_time <= self.last_time {
-            *entry += next_time - curr_time;
+            entry.duration += next_time - curr_time;
         }
     }
 }
